@@ -11,3 +11,40 @@ package tikv
 //@ func (s *KVStore) GetTimestampWithRetry
 //@   prop C13
 //@   ensures result1 == nil ==> issued(result0)
+
+// ---- GC (C14) -----------------------------------------------------------------------------------------
+
+// CheckVisibility: a read at a timestamp below the cached transaction safe point is refused (aborted by GC); nil is
+// answered only when the timestamp is not below it.
+//@ func (s *KVStore) CheckVisibility
+//@   prop C14
+//@   ensures refused: startTS < s.gcStateCacheMu.cachedTxnSafePoint ==> result != nil
+//@   ensures safe: result == nil ==> startTS >= s.gcStateCacheMu.cachedTxnSafePoint
+
+//@ func (s *KVStore) UpdateTxnSafePointCache
+//@   prop C14
+//@   ensures s.gcStateCacheMu.cachedTxnSafePoint == txnSafePoint
+
+// ResolveLocksForRange walks [startKey, endKey) region by region:
+// scan:  every scan starts at the cursor, is bounded by the range end, and carries the safe point and the limit;
+// walk:  the cursor stays put when the batch has to be retried, moves to the end of the region when fewer locks than the
+//        limit were found, and to the key of the last lock when the limit was hit;
+// whole: a nil error means the cursor reached the end of the key space or the end of the range.
+//@ func ResolveLocksForRange
+//@   prop C14
+//@   bytes: key
+//@   at call(ScanLocksInOneRegion) assert scan: arg1 == key && arg2 == endKey && arg3 == maxVersion && arg4 == scanLimit
+//@   at call(ResolveLocksInOneRegion) assert batch: arg1 == locks && arg2 == loc
+//@   loop 1 step walk: key == prev(key) || (len(locks) < int(scanLimit) && key == loc.EndKey) || (len(locks) >= int(scanLimit) && key == locks[len(locks)-1].Key)
+//@   ensures whole: result1 == nil ==> key == "" || (endKey != "" && key >= endKey)
+
+// scanLocksInOneRegionWithRange: the scan request goes to the region containing the start key, starts there, and ends at
+// the region's end clipped to the range end.
+//@ func scanLocksInOneRegionWithRange
+//@   prop C14
+//@   bytes: key
+//@   at call(SendReq) assert request: arg1 != nil && arg1.Req.(*kvrpcpb.ScanLockRequest).StartKey == startKey && arg1.Req.(*kvrpcpb.ScanLockRequest).MaxVersion == maxVersion &&
+//@       arg1.Req.(*kvrpcpb.ScanLockRequest).Limit == limit && arg2 == loc.Region && inRange(loc.StartKey, loc.EndKey, startKey) &&
+//@       arg1.Req.(*kvrpcpb.ScanLockRequest).EndKey == ite(endKey != "" && (loc.EndKey == "" || endKey < loc.EndKey), endKey, loc.EndKey)
+
+//@ spec func inRange(s []byte, e []byte, k []byte) bool { return s <= k && (e == "" || k < e) }
